@@ -13,6 +13,7 @@ import (
 	"sort"
 	"strings"
 	"sync"
+	"sync/atomic"
 	"time"
 
 	"github.com/anishathalye/porcupine"
@@ -553,8 +554,99 @@ func (p *c02) firstAccess(rec *core.Recorder, r *core.Rand, seed uint64, idx int
 	}
 }
 
+// c02Gate is a writer that parks every caller in its first Write until n callers are parked there (or a generous wait is
+// over: the wait only opens the gate, it decides nothing).
+type c02Gate struct {
+	buf     bytes.Buffer
+	arrived *int32
+	n       int32
+	open    chan struct{}
+	once    *sync.Once
+	parked  bool
+}
+
+func (g *c02Gate) Write(b []byte) (int, error) {
+	if !g.parked {
+		g.parked = true
+		if atomic.AddInt32(g.arrived, 1) >= g.n {
+			g.once.Do(func() { close(g.open) })
+		}
+		select {
+		case <-g.open:
+		case <-time.After(3 * time.Second):
+			g.once.Do(func() { close(g.open) })
+		}
+	}
+	return g.buf.Write(b)
+}
+
+// crowd: a hundred and more renders are inside one included / extended / imported template at the same moment (parked in
+// a slow writer). Each returns what it returns alone.
+func (p *c02) crowd(rec *core.Recorder, r *core.Rand, seed uint64, idx int) {
+	prev := runtime.GOMAXPROCS(16)
+	defer runtime.GOMAXPROCS(prev)
+	n := []int{70, 100, 150}[r.Intn(3)]
+	form := r.Intn(3)
+	e := twig.New()
+	e.RegisterString("part", "P[{{ v }}]")
+	e.RegisterString("lay", "L<{% block c %}d{% endblock %}>")
+	e.RegisterString("lib", "{% macro m(x) %}M({{ x }}){% endmacro %}")
+	src := []string{"a{% include 'part' %}b", "{% extends 'lay' %}{% block c %}C{{ v }}{% endblock %}", "{% import 'lib' as l %}{{ l.m(v) }}|{% include 'part' %}"}[form]
+	e.RegisterString("page", src)
+	want := func(v int) string {
+		return []string{fmt.Sprintf("aP[%d]b", v), fmt.Sprintf("L<C%d>", v), fmt.Sprintf("M(%d)|P[%d]", v, v)}[form]
+	}
+	if out, err := e.Render("page", map[string]interface{}{"v": 0}); err != nil || out != want(0) {
+		rec.HarnessFault("crowd: serial render gave %q %v", out, err)
+		return
+	}
+	var arrived int32
+	open := make(chan struct{})
+	once := &sync.Once{}
+	outs := make([]string, n)
+	errs := make([]error, n)
+	var wg sync.WaitGroup
+	for g := 0; g < n; g++ {
+		wg.Add(1)
+		go func(g int) {
+			defer wg.Done()
+			gw := &c02Gate{arrived: &arrived, n: int32(n), open: open, once: once}
+			errs[g] = e.RenderTo(gw, "page", map[string]interface{}{"v": g})
+			outs[g] = gw.buf.String()
+			if !gw.parked {
+				// a render that never wrote still counts as arrived, or the others would wait for it
+				if atomic.AddInt32(&arrived, 1) >= int32(n) {
+					once.Do(func() { close(open) })
+				}
+			}
+		}(g)
+	}
+	wg.Wait()
+	rec.Eval("crowd", fmt.Sprintf("%d:%d:%d:%d", seed, idx, n, form), true)
+	rec.Count("renders-parked-inside-one-template", n)
+	wrong := 0
+	example := ""
+	for g := range outs {
+		if errs[g] != nil || outs[g] != want(g) {
+			wrong++
+			if example == "" {
+				example = fmt.Sprintf("render %d gave %q (err=%v), alone it gives %q", g, outs[g], errs[g], want(g))
+			}
+		}
+	}
+	if wrong > 0 {
+		rec.Violate("serial-equivalence", "many-renders-inside-one-template",
+			fmt.Sprintf("%d renders were inside one %s at the same moment; %d of them returned something else than alone: %s", n, []string{"included template", "extended layout", "imported library / included template"}[form], wrong, example),
+			map[string]any{"page": src, "goroutines": n}, "")
+	}
+}
+
 func (p *c02) Run(rec *core.Recorder, seed uint64, idx int, tier string) {
 	twig.SetDebugWriter(io.Discard)
+	if idx%10 == 3 {
+		p.crowd(rec, core.NewRand("C02crowd", seed, idx), seed, idx)
+		return
+	}
 	if idx%10 == 7 {
 		p.firstAccess(rec, core.NewRand("C02first", seed, idx), seed, idx)
 		return
